@@ -301,6 +301,12 @@ impl DiskCache {
                 self.remove_item(key, &cache_item)?;
                 continue;
             };
+            // the header must describe exactly the chunks of the range this file claims in its name
+            if header.chunk_byte_indices.len() != (cache_item.range.end - cache_item.range.start + 1) as usize {
+                warn!("cache file header does not match its chunk range on cache item {key}/{cache_item}");
+                self.remove_item(key, &cache_item)?;
+                continue;
+            }
 
             let start = cache_item.range.start;
             let result_buf = get_range_from_cache_file(&header, &mut file_reader, range, start)?;
@@ -491,6 +497,11 @@ impl DiskCache {
             self.remove_item(key, cache_item)?;
             return Ok(false);
         };
+        // the header must describe exactly the chunks of the range this file claims in its name
+        if header.chunk_byte_indices.len() != (cache_item.range.end - cache_item.range.start + 1) as usize {
+            self.remove_item(key, cache_item)?;
+            return Ok(false);
+        }
 
         // validate the chunk_byte_indices and data input against stored data
         // the chunk_byte_indices should match the chunk lengths, if the ranges
